@@ -611,11 +611,10 @@ _wrap("_test_pearson_correlation", "timeseries", "_test_pearson_correlation_fast
       ["N>=0", "n_time>=1", "shape(original_data,0)==N", "shape(original_data,1)==n_time",
        "shape(surrogates,0)==N", "shape(surrogates,1)==n_time", "N*N" + _FIT, "N*n_time" + _FIT], props=("C20", "C10"))
 _wrap("_vertex_current_flow_betweenness", "core", "_vertex_current_flow_betweenness_fast",
-      ["N>=0", "0<=i and i<N", "shape(admittance,0)==N", "shape(admittance,1)==N", "shape(R,0)==N", "shape(R,1)==N",
-       "contiguous(admittance) and contiguous(R)", "N*N" + _FIT], props=("C20", "C18"))
+      # the shapes of admittance / R are no longer assumed: the wrapper checks them and raises ValueError
+      ["N>=0", "0<=i and i<N", "contiguous(admittance) and contiguous(R)", "N*N" + _FIT], props=("C20", "C18"))
 _wrap("_edge_current_flow_betweenness", "core", "_edge_current_flow_betweenness_fast",
-      ["N>=0", "shape(admittance,0)==N", "shape(admittance,1)==N", "shape(R,0)==N", "shape(R,1)==N",
-       "contiguous(admittance) and contiguous(R)", "N*N" + _FIT], props=("C20", "C18"))
+      ["N>=0", "contiguous(admittance) and contiguous(R)", "N*N" + _FIT], props=("C20", "C18"))
 
 _wrap("_test_mutual_information", "timeseries", "_test_mutual_information_fast",
       ["N>=1", "n_time>=1", "n_bins>=1", "shape(original_data,0)==N", "shape(original_data,1)==n_time",
